@@ -81,7 +81,8 @@ func c20(r *Report) {
 	ok := ReturnsNonNil(0)
 	r.Gate(Gate{ID: "C20.url.parsed", Fn: ws, Effect: ok, Check: ErrCheck(Fn("std:net/url", "", "Parse"))})
 	r.Gate(Gate{ID: "C20.url.scheme-allowed", Fn: ws, Effect: ok, Check: CallCheck(Fn("std:slices", "", "Contains"), -1, IsTrue), Alt: []Check{CmpCheck("no scheme restriction", token.LEQ, LenV(ParamV("allowedSchemes")), IntV(0), true)}})
-	r.Gate(Gate{ID: "C20.url.not-ip", Fn: ws, Effect: ok, Assume: map[string]bool{"allowReserved": false}, Check: CmpCheck("net.ParseIP(host) == nil", token.EQL, CallV(Fn("std:net", "", "ParseIP"), -1), NilV(), true)})
+	r.Gate(Gate{ID: "C20.url.not-ip", Fn: ws, Effect: ok, Assume: map[string]bool{"allowReserved": false}, // the host is not an IP literal — tested with netip.ParseAddr, which (unlike net.ParseIP) also recognises zoned IPv6 literals
+		Check: CallCheck(Fn("std:net/netip", "", "ParseAddr"), -1, NonNil)})
 	r.Gate(Gate{ID: "C20.url.not-reserved", Fn: ws, Effect: ok, Assume: map[string]bool{"allowReserved": false}, Check: CallCheck(Fn("core", "", "isReserved"), -1, IsFalse)})
 	r.Gate(Gate{ID: "C20.url.has-scheme-and-host", Fn: ws, Effect: ok, Check: CmpCheck("Scheme == \"\" is false", token.EQL, FieldV("URL", "Scheme"), StrV(""), false)})
 	c20ServerURL(r)
@@ -107,6 +108,26 @@ func c20(r *Report) {
 	c20FlagArg(r, "C20.sql.flag-passed", p.Func("storage", "engine", "Configure"), Fn("storage", "engine", "initSQLDatabase"), 0)
 	nc := p.Func("network", "Network", "Configure")
 	r.Gate(Gate{ID: "C20.tls.no-tls-only-if-not-strict", Fn: nc, Effect: CallEffect(Fn("network/transport/grpc", "", "NewDummyAuthenticator")), Check: Check{Desc: "strict mode off", Pass: IsFalse, Values: strictVals}})
+	// strict mode accepts only production-scheme (pbdf) IRMA attributes — each attribute, not just the first one
+	psa := p.Func("auth/services/irma", "", "parseSignerAttributes")
+	r.Gate(Gate{ID: "C20.irma.every-attribute-from-production-scheme", Fn: psa, ForEach: true,
+		Effect: InstrEffect("disclosedAttributes[id] = value", func(in ssa.Instruction) bool { _, ok := in.(*ssa.MapUpdate); return ok }),
+		Check:  CmpCheck("attribute.Identifier.Root() == \"pbdf\"", token.EQL, CallV(Fn("github.com/privacybydesign/irmago", "metaObjectIdentifier", "Root"), -1), StrV("pbdf"), true),
+		// an attribute of another scheme is skipped (continue), which is the point of the check
+		Skip: []Check{CmpCheck("attribute.Identifier.Root() == \"pbdf\" is false", token.EQL, CallV(Fn("github.com/privacybydesign/irmago", "metaObjectIdentifier", "Root"), -1), StrV("pbdf"), false)},
+		Alt: []Check{{Desc: "strict mode off", Pass: IsFalse, Values: func(fn *ssa.Function) []ssa.Value {
+			var out []ssa.Value
+			for _, prm := range fn.Params {
+				if ParamV("strictMode").M(prm) {
+					out = append(out, prm)
+				}
+			}
+			return out
+		}}}})
+	// stated positively: in strict mode the gRPC connection manager is built only on a path on which TLS is enabled (own
+	// certificate loaded) — whatever other TLS-related option (offloading, …) is set
+	r.Gate(Gate{ID: "C20.tls.connection-manager-needs-tls-or-not-strict", Fn: nc, Effect: CallEffect(Fn("network/transport/grpc", "", "NewGRPCConnectionManager")),
+		Check: CallCheck(Fn("core", "TLSConfig", "Enabled"), -1, IsTrue), Alt: []Check{{Desc: "strict mode off", Pass: IsFalse, Values: strictVals}}})
 	ac := p.Func("auth", "Auth", "Configure")
 	r.Gate(Gate{ID: "C20.irma.scheme-manager", Fn: ac, Effect: SuccessReturn(), Check: CmpCheck("SchemeManager == \"pbdf\"", token.EQL, FieldV("", "SchemeManager"), StrV("pbdf"), true),
 		Alt: []Check{Check{Desc: "strict mode off", Pass: IsFalse, Values: strictVals}}})
@@ -146,7 +167,42 @@ func c20(r *Report) {
 	r.MustReach(MustReach{ID: "C20.jsonld.filter-installed-when-strict", Fn: ncl, SuccessOnly: true,
 		Cond:   Check{Desc: "allowUnlistedExternalCalls is false", Pass: IsFalse, Values: func(fn *ssa.Function) []ssa.Value { return paramValues(fn, "allowUnlistedExternalCalls") }},
 		Target: Fn("jsonld", "", "NewFilteredLoader")})
-	r.ArgIs("C20.url.ip-test-on-hostname", p.Func("core", "", "ParsePublicURLWithScheme"), Fn("std:net", "", "ParseIP"), 0, CallV(Fn("std:net/url", "URL", "Hostname"), -1), 1)
+	r.ArgIs("C20.url.ip-test-on-hostname", p.Func("core", "", "ParsePublicURLWithScheme"), Fn("std:net/netip", "", "ParseAddr"), 0, CallV(Fn("std:net/url", "URL", "Hostname"), -1), 1)
+	// endpoints taken from remote metadata are public URLs in strict mode (fix: the s2s token endpoint and the OpenID4VCI credential
+	// endpoint were only url.Parse'd, so https://127.0.0.1 was accepted)
+	for _, m := range []string{"AccessToken", "VerifiableCredentials"} {
+		fn := p.Func("auth/client/iam", "HTTPClient", m)
+		r.Gate(Gate{ID: "C20.remote-endpoint.is-public-url", Fn: fn, Effect: CallEffect(Fn("std:net/http", "", "NewRequestWithContext")), Check: ErrCheck(Fn("core", "", "ParsePublicURL"))})
+		r.ArgIs("C20.remote-endpoint.is-public-url.strict-flag", fn, Fn("core", "", "ParsePublicURL"), 1, FieldV("HTTPClient", "strictMode"), 1)
+	}
+	// the strict-mode flag itself cannot be switched off by an empty or unparsable string
+	ldf := p.Func("core", "ServerConfig", "Load")
+	r.Gate(Gate{ID: "C20.default.string-value-must-be-a-boolean", Fn: ldf, Effect: CallEffect(Fn("core", "", "loadConfigIntoStruct")), Check: ErrCheck(Fn("std:strconv", "", "ParseBool")),
+		Alt: []Check{{Desc: "the configured value is not a string", Pass: IsFalse, Values: func(fn *ssa.Function) []ssa.Value {
+			var out []ssa.Value
+			for _, b := range fn.Blocks {
+				for _, in := range b.Instrs {
+					if ta, ok := in.(*ssa.TypeAssert); ok && ta.CommaOk && ta.AssertedType.String() == "string" {
+						for _, ref := range *ta.Referrers() {
+							if ex, isEx := ref.(*ssa.Extract); isEx && ex.Index == 1 {
+								out = append(out, ex)
+							}
+						}
+					}
+				}
+			}
+			return out
+		}}}})
+	// zone-blind IP parsing is not used for the public-URL decision
+	r.Own(OwnSpec{ID: "C20.url.no-zone-blind-ip-test", Op: "call net.ParseIP in package core", Sites: func() []Site {
+		var out []Site
+		for _, s := range p.CallSites(Fn("std:net", "", "ParseIP"), false) {
+			if strings.HasPrefix(p.FuncName(s.Fn), "core.") {
+				out = append(out, s)
+			}
+		}
+		return out
+	}(), Min: 0, Owners: map[string]string{}})
 }
 
 func c20ParsePublicURL(r *Report, pu *ssa.Function) {
